@@ -202,7 +202,7 @@ func (c *Ctx) genBExpr(depth int, h *hitSet) bs.BloomExpression {
 			return bs.BloomExpression{ExpressionType: bs.BloomExpressionCondition}
 		case x == 1:
 			c.dist("bexpr_nodes", "unknown-condition-type")
-			return bs.BloomExpression{ExpressionType: bs.BloomExpressionCondition, Condition: &bs.BloomCondition{Type: "BOGUS", Field: "a", Token: "a"}}
+			return bs.BloomExpression{ExpressionType: bs.BloomExpressionCondition, Condition: &bs.BloomCondition{Type: "BOGUS"}}
 		case x == 2:
 			c.dist("bexpr_nodes", "unknown-expression-type")
 			return bs.BloomExpression{ExpressionType: "BOGUS"}
